@@ -19,6 +19,7 @@ import (
 	"os"
 	"path/filepath"
 	"sort"
+	"strings"
 	"sync"
 	"time"
 
@@ -49,6 +50,7 @@ type runOut struct {
 	Idx     int              `json:"idx"`
 	Name    string           `json:"name"`
 	Roots   []string         `json:"roots"` // hex root after each batch ("" = nil)
+	Modes   []string         `json:"modes,omitempty"`
 	Err     string           `json:"err,omitempty"`
 	ErrStep int              `json:"err_step,omitempty"`
 	Noise   map[string]int64 `json:"noise,omitempty"`
@@ -63,14 +65,30 @@ type probeOut struct {
 	MemErr     string `json:"mem_err,omitempty"`
 }
 
+// forkProbeOut: two roots committed at the same height, both extended, a third write at that height (re-execution
+// after a rollback), then an empty write list applied to each of the two roots through Set and MemSet+Commit.
+type forkProbeOut struct {
+	Cfg     string   `json:"cfg"`
+	Keys    int      `json:"keys_per_root"`
+	RootA   string   `json:"root_a"`
+	RootB   string   `json:"root_b"`
+	SetA    string   `json:"empty_set_on_a"`
+	SetB    string   `json:"empty_set_on_b"`
+	MemA    string   `json:"empty_memset_commit_on_a"`
+	MemB    string   `json:"empty_memset_commit_on_b"`
+	Err     string   `json:"err,omitempty"`
+	Program []string `json:"program"`
+}
+
 type childOut struct {
 	Runs     []runOut         `json:"runs"`
 	Probes   []probeOut       `json:"probes,omitempty"`
+	Forks    []forkProbeOut   `json:"fork_probes,omitempty"`
 	Counters map[string]int64 `json:"counters"`
 }
 
 func paramsFor(tier string, idx int) mx.GenParams {
-	p := mx.GenParams{MinBatches: 8, MaxBatches: 30, MaxBatch: 60, Branch: 20, Tickets: true, EmptyBatches: true}
+	p := mx.GenParams{MinBatches: 8, MaxBatches: 20, MaxBatch: 40, Branch: 20, Tickets: true, EmptyBatches: true}
 	if tier == "thorough" {
 		p.MaxBatches = 60
 		p.MaxBatch = 150
@@ -78,7 +96,10 @@ func paramsFor(tier string, idx int) mx.GenParams {
 	switch idx % 4 {
 	case 0:
 		p.Small = true
-		p.MinBatches, p.MaxBatches = 15, 60
+		p.MinBatches, p.MaxBatches = 15, 30
+		if tier == "thorough" {
+			p.MaxBatches = 60
+		}
 	case 3:
 		p.Branch = 5
 	}
@@ -100,6 +121,17 @@ func genHistory(seed int64, tier string, idx int) *mx.History {
 
 func hx(b []byte) string { return hex.EncodeToString(b) }
 
+// cfgOf extracts the configuration name from an execution name like "warm:prefix+prune/pattern1".
+func cfgOf(name string) string {
+	if i := strings.IndexByte(name, ':'); i >= 0 {
+		name = name[i+1:]
+	}
+	if i := strings.IndexByte(name, '/'); i >= 0 {
+		name = name[:i]
+	}
+	return name
+}
+
 func depth(h *mx.History, vi int) int64 {
 	d := int64(0)
 	for vi > 0 {
@@ -110,9 +142,9 @@ func depth(h *mx.History, vi int) int64 {
 }
 
 // applyStep applies batch i of h on store in the given mode; noise (may be nil) runs at the documented points.
-func applyStep(store *mavl.Store, h *mx.History, i int, roots [][]byte, mode string, noise func(point string)) ([]byte, error) {
+func applyStep(store *mavl.Store, h *mx.History, i int, roots [][]byte, mode string, hbase int64, noise func(point string)) ([]byte, error) {
 	b := h.Batches[i]
-	set := &types.StoreSet{StateHash: roots[b.Parent], KV: mx.ToKV(b.KV), Height: depth(h, i+1)}
+	set := &types.StoreSet{StateHash: roots[b.Parent], KV: mx.ToKV(b.KV), Height: hbase + depth(h, i+1)}
 	if mode == "set" {
 		if noise != nil {
 			noise("before-set")
@@ -149,7 +181,7 @@ func execClean(h *mx.History, idx int, v variant, dir string) (out runOut) {
 	defer func() { store.Close(); os.RemoveAll(dir) }()
 	roots := [][]byte{mx.EmptyRoot}
 	for i := range h.Batches {
-		root, err := applyStep(store, h, i, roots, v.Mode, nil)
+		root, err := applyStep(store, h, i, roots, v.Mode, 0, nil)
 		if err != nil {
 			out.Err, out.ErrStep = err.Error(), i
 			return
@@ -206,9 +238,63 @@ func freshChild(in []byte) (any, error) {
 			store.Close()
 			os.RemoveAll(dir)
 			out.Probes = append(out.Probes, po)
+			for _, n := range []int{5, 8} {
+				mavldb.VerifClearGlobals()
+				out.Forks = append(out.Forks, forkProbe(mx.CfgByName(v.Cfg), dir, n))
+			}
 		}
 	}
 	return out, nil
+}
+
+func seqKeys(p string, n int) []mx.KV {
+	var kvs []mx.KV
+	for i := 0; i < n; i++ {
+		kvs = append(kvs, mx.KV{K: []byte(fmt.Sprintf("%s%03d", p, i)), V: []byte("v")})
+	}
+	return kvs
+}
+
+func forkProbe(cfg mx.Cfg, dir string, n int) (fo forkProbeOut) {
+	fo = forkProbeOut{Cfg: cfg.Name, Keys: n, Program: []string{
+		fmt.Sprintf("A=Set(empty,{a000..a%03d}=v,h=1)", n-1), fmt.Sprintf("B=Set(empty,{b000..b%03d}=v,h=1)", n-1),
+		"Set(A,{x000=v},h=2)", "Set(B,{y000=v},h=2)", "Set(empty,{c000=v},h=1)", "Set(A,{},h=2) ?= A", "Set(B,{},h=2) ?= B",
+		"Commit(MemSet(A,{},h=2)) ?= A", "Commit(MemSet(B,{},h=2)) ?= B"}}
+	defer func() {
+		if r := recover(); r != nil {
+			fo.Err = fmt.Sprintf("panic: %v", r)
+		}
+	}()
+	os.RemoveAll(dir)
+	store := mx.Open(dir, cfg)
+	defer func() { store.Close(); os.RemoveAll(dir) }()
+	set := func(parent []byte, kv []mx.KV, h int64) []byte {
+		r, err := store.Set(&types.StoreSet{StateHash: parent, KV: mx.ToKV(kv), Height: h}, false)
+		if err != nil {
+			panic(err)
+		}
+		return r
+	}
+	mem := func(parent []byte, h int64) []byte {
+		r, err := store.MemSet(&types.StoreSet{StateHash: parent, Height: h}, false)
+		if err != nil {
+			panic(err)
+		}
+		r2, err := store.Commit(&types.ReqHash{Hash: r})
+		if err != nil {
+			panic(err)
+		}
+		return r2
+	}
+	rA := set(mx.EmptyRoot, seqKeys("a", n), 1)
+	rB := set(mx.EmptyRoot, seqKeys("b", n), 1)
+	set(rA, seqKeys("x", 1), 2)
+	set(rB, seqKeys("y", 1), 2)
+	set(mx.EmptyRoot, seqKeys("c", 1), 1)
+	fo.RootA, fo.RootB = hx(rA), hx(rB)
+	fo.SetA, fo.SetB = hx(set(rA, nil, 2)), hx(set(rB, nil, 2))
+	fo.MemA, fo.MemB = hx(mem(rA, 2)), hx(mem(rB, 2))
+	return fo
 }
 
 // ---------------------------------------------------------------------------------------------
@@ -239,6 +325,8 @@ func warmChild(in []byte) (any, error) {
 	defer func() { store.Close(); os.RemoveAll(dir) }()
 	ctx := &lib.Ctx{Prop: "C02", Seed: wi.Seed}
 	noiseSeq := 0
+	hbase := int64(0)
+	dbg := os.Getenv("VERIF_DEBUG") != ""
 	var committedPool [][]byte // roots committed earlier in this process (any history)
 	for _, idx := range wi.Indices {
 		h := genHistory(wi.Seed, wi.Tier, idx)
@@ -248,6 +336,8 @@ func warmChild(in []byte) (any, error) {
 			modeRng := ctx.CaseRng("modes", idx) // same choices for both patterns, pattern 1 inverts them
 			roots := [][]byte{mx.EmptyRoot}
 			var forks []pendingFork
+			// like a chain, the process moves on to greater heights: every run of a history starts above the previous one
+			// (branches inside a history still re-use heights, which is what a rollback + re-execution does)
 			func() {
 				defer func() {
 					if r := recover(); r != nil {
@@ -276,7 +366,10 @@ func warmChild(in []byte) (any, error) {
 									src := h.Batches[step].KV
 									kvs = append(kvs, src[:rng.Range(1, len(src))]...) // overlaps the real writes
 								}
-								r, err := store.MemSet(&types.StoreSet{StateHash: parent, KV: mx.ToKV(kvs), Height: depth(h, step+1)}, false)
+								r, err := store.MemSet(&types.StoreSet{StateHash: parent, KV: mx.ToKV(kvs), Height: hbase + depth(h, step+1)}, false)
+								if dbg {
+									fmt.Fprintf(os.Stderr, "DBG   noise memset parent=%x nkv=%d -> %x %v\n", parent[:4], len(kvs), r, err)
+								}
 								if err == nil {
 									forks = append(forks, pendingFork{root: r})
 									ro.Noise["pending_updates"]++
@@ -285,12 +378,18 @@ func warmChild(in []byte) (any, error) {
 								}
 							case x < 55 && len(forks) > 0: // roll one back
 								k := rng.Intn(len(forks))
+								if dbg {
+									fmt.Fprintf(os.Stderr, "DBG   noise rollback %x\n", forks[k].root[:4])
+								}
 								if _, err := store.Rollback(&types.ReqHash{Hash: forks[k].root}); err == nil {
 									ro.Noise["rollbacks"]++
 								}
 								forks = append(forks[:k], forks[k+1:]...)
 							case x < 65 && len(forks) > 0: // commit a competing fork
 								k := rng.Intn(len(forks))
+								if dbg {
+									fmt.Fprintf(os.Stderr, "DBG   noise commit %x\n", forks[k].root[:4])
+								}
 								if _, err := store.Commit(&types.ReqHash{Hash: forks[k].root}); err == nil {
 									ro.Noise["fork_commits"]++
 									committedPool = append(committedPool, forks[k].root)
@@ -299,7 +398,10 @@ func warmChild(in []byte) (any, error) {
 							case x < 75: // unrelated direct Set on an old root
 								parent := lib.Pick(rng, roots)
 								kvs := []mx.KV{{K: []byte(fmt.Sprintf("noise-set-%s-%d", wi.Cfg, noiseSeq)), V: rng.Bytes(8)}}
-								if r, err := store.Set(&types.StoreSet{StateHash: parent, KV: mx.ToKV(kvs), Height: depth(h, step+1)}, false); err == nil {
+								if dbg {
+									fmt.Fprintf(os.Stderr, "DBG   noise set on %x\n", parent[:4])
+								}
+								if r, err := store.Set(&types.StoreSet{StateHash: parent, KV: mx.ToKV(kvs), Height: hbase + depth(h, step+1)}, false); err == nil {
 									ro.Noise["unrelated_sets"]++
 									committedPool = append(committedPool, r)
 								}
@@ -327,7 +429,13 @@ func warmChild(in []byte) (any, error) {
 							}
 						}
 					}
-					root, err := applyStep(store, h, i, roots, mode, noise)
+					if dbg {
+						fmt.Fprintf(os.Stderr, "DBG %s idx=%d pat=%d step=%d mode=%s parent=v%d(%x) nkv=%d\n", wi.Cfg, idx, pat, i, mode, h.Batches[i].Parent, roots[h.Batches[i].Parent][:4], len(h.Batches[i].KV))
+					}
+					root, err := applyStep(store, h, i, roots, mode, hbase, noise)
+					if dbg {
+						fmt.Fprintf(os.Stderr, "DBG   -> %x err=%v\n", root, err)
+					}
 					if err != nil {
 						ro.Err, ro.ErrStep = err.Error(), i
 						return
@@ -339,6 +447,7 @@ func warmChild(in []byte) (any, error) {
 					}
 					roots = append(roots, root)
 					ro.Roots = append(ro.Roots, hx(root))
+					ro.Modes = append(ro.Modes, mode)
 				}
 			}()
 			// abandon or roll back what is still pending
@@ -363,6 +472,7 @@ func warmChild(in []byte) (any, error) {
 				cnt["tkclosecache_len_max"] = int64(tk)
 			}
 			out.Runs = append(out.Runs, ro)
+			hbase += int64(len(h.Batches)) + 1
 		}
 	}
 	return out, nil
@@ -416,7 +526,7 @@ func run(c *lib.Ctx) {
 		"fresh plain/Set root and the independent reference root. non-trivial = all variants delivered roots for the history AND the warm runs measured >=1 rollback, >=1 committed competing update and >=1 pending update")
 	c.Assume("sha256 collisions do not occur", "pruning is enabled without ever starting a pruning run (pruneHeight 0); pruning safety is C05",
 		"the reference AVL follows the IAVL split-key convention (inner key = smallest key of the right subtree); its record encoder is hand-written protobuf")
-	n := c.N(40, 600)
+	n := c.N(32, 600)
 	var idxs []int
 	for i := 0; i < n; i++ {
 		if !c.Skip(i) {
@@ -426,6 +536,7 @@ func run(c *lib.Ctx) {
 	var mu sync.Mutex
 	runs := map[int][]runOut{}
 	var probes []probeOut
+	var forkProbes []forkProbeOut
 	collect := func(what string, res lib.ChildResult, idxsOf []int) bool {
 		if res.TimedOut {
 			c.Inconclusive("%s child for histories %v hit the watchdog", what, idxsOf)
@@ -444,6 +555,7 @@ func run(c *lib.Ctx) {
 			}
 		}
 		probes = append(probes, out.Probes...)
+		forkProbes = append(forkProbes, out.Forks...)
 		mu.Unlock()
 		for k, v := range out.Counters {
 			if len(k) > 4 && k[len(k)-4:] == "_max" {
@@ -502,11 +614,20 @@ func run(c *lib.Ctx) {
 		j := jobs[k]
 		if j.kind == "warm" {
 			res := c.Child("warm", j.wi, lib.ChildOpts{Timeout: 40 * time.Minute, Env: []string{"GOGC=200"}})
+			if os.Getenv("VERIF_TIMING") != "" {
+				fmt.Fprintf(os.Stderr, "TIMING warm cfg=%s n=%d ms=%d\n", j.wi.Cfg, len(j.wi.Indices), res.WallMs)
+			}
+			if os.Getenv("VERIF_DEBUG") != "" && j.wi.Cfg == "prefix+prune" {
+				fmt.Fprintln(os.Stderr, res.Stderr)
+			}
 			if collect("warm:"+j.wi.Cfg, res, j.wi.Indices) {
 				c.Count("warm_processes", 1)
 			}
 		} else {
-			res := c.Child("fresh", j.fi, lib.ChildOpts{Timeout: 20 * time.Minute})
+			res := c.Child("fresh", j.fi, lib.ChildOpts{Timeout: 20 * time.Minute, Env: []string{"GOGC=200"}})
+			if os.Getenv("VERIF_TIMING") != "" {
+				fmt.Fprintf(os.Stderr, "TIMING fresh idx=%d ms=%d\n", j.fi.Idx, res.WallMs)
+			}
 			if collect("fresh", res, []int{j.fi.Idx}) {
 				c.Count("fresh_processes", 1)
 				c.Seen("first_variant_in_fresh_process", j.fi.Variants[0].String())
@@ -585,7 +706,12 @@ func run(c *lib.Ctx) {
 				}
 				c.Count("roots_compared", 1)
 				if r.Roots[s] != canon.Roots[s] {
-					report(r, s, "root-diff:"+r.Name, fmt.Sprintf("%s computed root %s, fresh plain/Set computed %s for the same parent root and writes", r.Name, r.Roots[s], canon.Roots[s]))
+					shape := "root-diff:" + r.Name
+					if len(h.Batches[s].KV) == 0 && s < len(r.Modes) && r.Modes[s] == "set" && mx.CfgByName(cfgOf(r.Name)).Prune {
+						// minimal form of this witness: see pruneProbe
+						shape = "prune-empty-set-returns-other-root:" + r.Name
+					}
+					report(r, s, shape, fmt.Sprintf("%s computed root %s, fresh plain/Set computed %s for the same parent root and writes", r.Name, r.Roots[s], canon.Roots[s]))
 					break
 				}
 			}
@@ -616,6 +742,33 @@ func run(c *lib.Ctx) {
 		if p.SetRoot != p.MemSetRoot || p.CommitRoot != p.MemSetRoot {
 			c.Violation(0, "empty-batch-on-empty-root:set-vs-memset", p, "empty write list applied to the empty root (32 zero bytes) under %s: Set returns root %q, MemSet returns %q, Commit returns %q",
 				p.Cfg, p.SetRoot, p.MemSetRoot, p.CommitRoot)
+		}
+	}
+	// empty write list on two roots of one height after a third write at that height
+	refA := map[int]string{}
+	for _, f := range forkProbes {
+		c.Count("fork_empty_write_probes", 1)
+		if _, ok := refA[f.Keys]; !ok {
+			t := (*mx.RNode)(nil)
+			for _, kv := range seqKeys("a", f.Keys) {
+				t = mx.RefSet(t, kv.K, kv.V)
+			}
+			refA[f.Keys] = hx(mx.RefRoot(t))
+		}
+		switch {
+		case f.Err != "":
+			c.Violation(0, "fork-empty-write:error:"+f.Cfg, f, "fork/empty-write program failed under %s: %s", f.Cfg, f.Err)
+		case f.RootA != refA[f.Keys]:
+			c.Violation(0, "fork-empty-write:ref-diff:"+f.Cfg, f, "root A under %s is %s, reference %s", f.Cfg, f.RootA, refA[f.Keys])
+		case f.SetA != f.RootA || f.SetB != f.RootB:
+			shape := "fork-empty-write:set-returns-other-root:" + f.Cfg
+			if mx.CfgByName(f.Cfg).Prune && (f.SetA == f.RootB || f.SetB == f.RootA) {
+				shape = "prune-empty-set-returns-other-root:probe"
+			}
+			c.Violation(0, shape, f, "under %s, after two roots A=%s B=%s were committed at height 1, both extended at height 2 and one more write committed at height 1, "+
+				"Set(A, no writes, height 2) returns %s and Set(B, no writes, height 2) returns %s (each must return its parent root)", f.Cfg, f.RootA, f.RootB, f.SetA, f.SetB)
+		case f.MemA != f.RootA || f.MemB != f.RootB:
+			c.Violation(0, "fork-empty-write:memset-returns-other-root:"+f.Cfg, f, "under %s MemSet+Commit of no writes on A=%s / B=%s returns %s / %s", f.Cfg, f.RootA, f.RootB, f.MemA, f.MemB)
 		}
 	}
 	c.Extra("configs", []string{"plain", "prefix", "prefix+prune", "memtree", "memtree+memval", "mvcc"})
